@@ -1,10 +1,10 @@
-(* C08g -- string literals: the regenerated translation of the literal parser meets the parsing half of C08.
+(* C08g -- string literals: the regenerated translation of the literal parser meets the parsing half of C08; the two regenerated character printers meet the printing half.
    Statements only; every proof is [exact <lemma>].  The statements are about the definitions that
    gen/rs2v.py regenerates from /repo/src on every run (namespace SVG; M_f is the monadic view of
    the Rust function f: None = f panics).  Written by bin/mkgenprops from the lemma statements. *)
 Require Import Base GenBase.
 Require Import Literal LiteralProofs.
-From SVG Require Import LiteralGen GenLinkLiteral GenPropsLiteral.
+From SVG Require Import LiteralGen GenLinkLiteral GenPropsLiteral StrPrintGen GenLinkStrPrint GenPropsStrPrint.
 Open Scope N_scope.
 
 (* ---- the translated automaton methods are the model's (strong form: M_f p x = unconvpa (model (convpa p) x)) ---- *)
@@ -128,3 +128,51 @@ Theorem C08g_example :
        coh (convpa fn_new_automaton) [].
 Proof. exact g_example. Qed.
 Print Assumptions C08g_example.
+
+(* ---- the translated character printers are the model's (format! with {:x} as the hexadecimal printer) ---- *)
+
+Theorem C08g_link_smt_char_as_string :
+  forall x : N, M_fn_smt_char_as_string x = Some (smt_char_as_string x).
+Proof. exact link_smt_char_as_string. Qed.
+Print Assumptions C08g_link_smt_char_as_string.
+
+Theorem C08g_link_char_to_smt :
+  forall x : N, M_fn_char_to_smt x = Some (char_to_smt x).
+Proof. exact link_char_to_smt. Qed.
+Print Assumptions C08g_link_char_to_smt.
+
+(* ---- the C08 printing statements on the translated character printers ---- *)
+
+Theorem C08g_char_printers_total :
+  forall x : N, M_fn_char_to_smt x <> None /\ M_fn_smt_char_as_string x <> None.
+Proof. exact g_char_printers_total. Qed.
+Print Assumptions C08g_char_printers_total.
+
+Theorem C08g_char_printers_ascii :
+  forall x : N,
+       x <= MAXC ->
+       exists l1 l2 : list N,
+         M_fn_char_to_smt x = Some l1 /\
+         M_fn_smt_char_as_string x = Some l2 /\
+         Forall (fun c : N => 32 <= c <= 126) l1 /\ Forall (fun c : N => 32 <= c <= 126) l2.
+Proof. exact g_char_printers_ascii. Qed.
+Print Assumptions C08g_char_printers_ascii.
+
+Theorem C08g_char_roundtrip :
+  forall x : N,
+       x <= MAXC ->
+       exists l1 l2 : list N,
+         M_fn_char_to_smt x = Some l1 /\
+         M_fn_smt_char_as_string x = Some l2 /\
+         parse_smt_literal (lit_undouble l1) = Some [x] /\
+         parse_smt_literal (lit_undouble l2) = Some [x].
+Proof. exact g_char_roundtrip. Qed.
+Print Assumptions C08g_char_roundtrip.
+
+Theorem C08g_example_printers :
+  M_fn_char_to_smt 34 = Some [34; 34] /\
+       M_fn_char_to_smt 10 = Some [92; 117; 123; 48; 97; 125] /\
+       M_fn_char_to_smt 233 = Some [92; 117; 48; 48; 101; 57] /\
+       M_fn_smt_char_as_string 196607 = Some [92; 117; 123; 50; 102; 102; 102; 102; 125].
+Proof. exact g_example_printers. Qed.
+Print Assumptions C08g_example_printers.
